@@ -644,6 +644,7 @@ type scenario struct {
 		PriorF   string `json:"priorF"`
 		PriorP   string `json:"priorP"`
 		Declared int    `json:"declared"`
+		Nm       string `json:"nm"` // "short" | "long": base name within len(".part") bytes of NAME_MAX
 	} `json:"sc"`
 	Calls   [][]string `json:"calls"`
 	Renamed bool       `json:"renamed"`
@@ -854,9 +855,18 @@ type crashEnv struct {
 
 const oldContent, staleContent = "OLD-COMPLETE-OBJECT", "STALE"
 
+// keyOf: the object key of a scenario. The "long" class has a 252-byte base name: a legal file name (NAME_MAX = 255)
+// whose staging name "<name>.part" is not.
+func keyOf(s *scenario) string {
+	if s.Sc.Nm == "long" {
+		return "d/" + strings.Repeat("L", 244) + ".parquet"
+	}
+	return "d/f.bin"
+}
+
 func (e *crashEnv) prepare(root string, s *scenario) (F string, err error) {
 	os.RemoveAll(root)
-	F = filepath.Join(root, "d", "f.bin")
+	F = filepath.Join(root, filepath.FromSlash(keyOf(s)))
 	if err = os.MkdirAll(root, 0o700); err != nil {
 		return
 	}
@@ -883,7 +893,7 @@ func (e *crashEnv) strace(root string, s *scenario, chunk int, inject string) (s
 	if inject != "" {
 		args = append(args, "-e", "inject="+inject)
 	}
-	args = append(args, e.self, "-mode", "child", "-op", s.Sc.Op, "-root", root, "-key", "d/f.bin", "-n", strconv.Itoa(s.Sc.N),
+	args = append(args, e.self, "-mode", "child", "-op", s.Sc.Op, "-root", root, "-key", keyOf(s), "-n", strconv.Itoa(s.Sc.N),
 		"-chunk", strconv.Itoa(chunk), "-fail", strconv.Itoa(s.Sc.Fail), "-declared", strconv.Itoa(s.Sc.Declared))
 	cmd := exec.Command("strace", args...)
 	var stderr bytes.Buffer
@@ -905,7 +915,7 @@ func (e *crashEnv) strace(root string, s *scenario, chunk int, inject string) (s
 	if err != nil {
 		return straceRun{}, fmt.Errorf("no strace log: %v (%s)", err, stderr.String())
 	}
-	r := parseStrace(string(raw), filepath.Join(root, "d", "f.bin"))
+	r := parseStrace(string(raw), filepath.Join(root, filepath.FromSlash(keyOf(s))))
 	r.raw = string(raw)
 	// strace re-raises the tracee's fatal signal on itself
 	var ee *exec.ExitError
@@ -938,6 +948,8 @@ func judge(F string, s *scenario, chunk int) (ok bool, state string) {
 		intended = append(intended, chunkBytes(j, chunk)...)
 	}
 	wantOK := noFail && (s.Sc.Op != "AppendReader" || (s.Sc.Declared == s.Sc.N && s.Sc.PriorP == "stale"))
+	// (a long name whose staging name does not fit may be published by WriteReader only if the whole content appears at
+	// once; the judgement below is the same for every name: previous object or complete intended content)
 	switch {
 	case err != nil && os.IsNotExist(err):
 		if priorAbsent {
@@ -1015,7 +1027,7 @@ func (e *crashEnv) runScenario(idx int, s *scenario, chunk int, kills bool) erro
 	if base.killed || !base.ended {
 		return fmt.Errorf("baseline run of scenario %d did not complete: %s", idx, base.raw[max(0, len(base.raw)-400):])
 	}
-	label := fmt.Sprintf("#%d %s n=%d fail=%d priorF=%s priorP=%s declared=%d chunk=%d", idx, s.Sc.Op, s.Sc.N, s.Sc.Fail, s.Sc.PriorF, s.Sc.PriorP, s.Sc.Declared, chunk)
+	label := fmt.Sprintf("#%d %s n=%d fail=%d priorF=%s priorP=%s declared=%d name=%s chunk=%d", idx, s.Sc.Op, s.Sc.N, s.Sc.Fail, s.Sc.PriorF, s.Sc.PriorP, s.Sc.Declared, s.Sc.Nm, chunk)
 	wit := func(extra map[string]interface{}) map[string]interface{} {
 		var lines []string
 		for _, c := range base.calls {
@@ -1152,7 +1164,7 @@ func modeCrash(in, out, tracePath, scratch string, chunks []int, killEvery int, 
 			}
 			// killEvery > 1 (quick tier): kill runs for a seed-rotated 1/killEvery of each operation's scenarios; the others are
 			// covered by TLC's validation of their syscall trace, which asks for a targeted kill matrix (-only) when it sees a torn state
-			kills := killEvery <= 1 || only >= 0 || (rk+int(seed))%killEvery == 0
+			kills := killEvery <= 1 || only >= 0 || (rk+int(seed))%killEvery == 0 || scs[i].Sc.Nm == "long"
 			if err := e.runScenario(i, &scs[i], ch, kills); err != nil {
 				res.Infra = err.Error()
 				return
